@@ -259,4 +259,80 @@ Proof.
         by (destruct menc; [rewrite !andb_false_r|]; reflexivity).
       left. destruct menc as [bb|]; [rewrite !andb_false_r in HT; cbn [andb] in HT|]; inversion HT; inversion HF; subst; auto.
 Qed.
+(* a step that reports Resolved leaves the symbols and the reservation / alignment / address tables alone *)
+Lemma node_aux2 n c x b pos x' : In (n, c) ns -> INV x -> labels_ok2 ns (ss x) ->
+  (forall d, In d (dref (n, c)) -> (d < length (s_data (ss x)))%nat) ->
+  NS n c x b pos = Ok (x', Resolved) -> aux_eq (ss x) (ss x').
+Proof.
+  intros Hin HI Hl Hrange HT. destruct (node_T_to_F2 n c x b pos x' Resolved Hin HI HT) as (rF & HF & _ & HI' & _).
+  destruct (node_outcome2 n c x b pos x' Resolved _ _ Hin HI Hrange HT HF) as [[<- _]|Hz].
+  - rewrite <- (resolve_node2_fix m defs mb md ns n c _ _ _ _ Hl Hin HF). apply aux_refl.
+  - destruct n as [s d0|s d0 e|i src|width d e|k e|k e|k e|bi|e]; try (exfalso; exact Hz);
+      try (eapply heavy_aux2; [|exact HF]; exact I).
+    cbn [frozen_at2] in Hz. pose proof HI' as (_ & _ & _ & I4 & _). destruct (I4 s Hz) as (_ & d0' & e' & c' & Hin' & Hk').
+    assert (e' = e) by (eapply const_unique2; [exact (proj1 Hcanon)|exact Hin'|exact Hin]). subst e'.
+    pose proof HI as (I1 & _). rewrite (const_noop2 m defs mb ns Hres (ss x) b pos md s d0 e c (proj1 (I1 eq_refl)) Hin Hk') in HF.
+    inversion HF. apply aux_refl.
+Qed.
+
+(* replaying one step of the optimised first pass (which reported Resolved) from the state x2 at the end of that pass *)
+Lemma replay_node2 n c x b pos x' x2 : In (n, c) ns -> INV x -> labels_ok2 ns (ss x) ->
+  (forall d, In d (dref (n, c)) -> (d < length (s_data (ss x)))%nat) ->
+  NS n c x b pos = Ok (x', Resolved) ->
+  INV x2 -> labels_ok2 ns (ss x2) -> aux_eq (ss x') (ss x2) -> sub_flags x' x2 -> own_eq2 n (ss x') (ss x2) ->
+  NF n c (ss x2) b pos = Ok (ss x2, Resolved).
+Proof.
+  intros Hin HI Hl Hrange HT HI2 Hl2 Ha Hsub Ho.
+  destruct (node_T_to_F2 n c x b pos x' Resolved Hin HI HT) as (rF & HF & _ & HI' & _).
+  destruct (node_outcome2 n c x b pos x' Resolved _ _ Hin HI Hrange HT HF) as [[<- _]|Hz].
+  - pose proof (resolve_node2_fix m defs mb md ns n c _ _ _ _ Hl Hin HF) as E. rewrite E in *.
+    destruct (node_loc2 m defs mb md n c (ss x) (ss x2) b pos _ _ HF Ha Ho) as [b' Hb'].
+    rewrite <- (resolve_node2_fix m defs mb md ns n c _ _ _ _ Hl2 Hin Hb') at 2. exact Hb'.
+  - destruct Hsub as (S1 & S2 & S3). pose proof HI2 as (I1 & I2 & I3 & I4 & _).
+    destruct n as [s d0|s d0 e|i src|width d e|k e|k e|k e|bi|e]; try (exfalso; exact Hz); cbn [frozen_at2] in Hz.
+    + destruct (I4 s (S1 s Hz)) as (_ & d0' & e' & c' & Hin' & Hk').
+      assert (e' = e) by (eapply const_unique2; [exact (proj1 Hcanon)|exact Hin'|exact Hin]). subst e'.
+      exact (const_noop2 m defs mb ns Hres (ss x2) b pos md s d0 e c (proj1 (I1 eq_refl)) Hin Hk').
+    + destruct (I2 i (S2 i Hz)) as (_ & d2 & Hd2 & Hok2). exact (Hok2 src c Hin (ss x2) b pos md src (proj1 (I1 eq_refl)) Hd2).
+    + destruct (I3 d (S3 d Hz)) as (bb & Hb & Hall). exact (Hall width e c Hin c (ss x2) b pos md Hb).
+Qed.
+
+(* the whole pass *)
+Lemma replay_pass2 : forall l, incl l ns -> NoDup (flat_map iref l) -> NoDup (flat_map dref l) ->
+  forall x c prev x2, INV x -> labels_ok2 ns (ss x) -> (forall d, In d (flat_map dref l) -> (d < length (s_data (ss x)))%nat) ->
+  pass2S m banks defs mb K true first md l x c prev Resolved = Ok (x2, Resolved) ->
+  pass2 m banks defs mb md l (ss x2) c prev Resolved = Ok (ss x2, Resolved) /\ INV x2 /\ labels_ok2 ns (ss x2) /\ aux_eq (ss x) (ss x2).
+Proof.
+  induction l as [|[n cn] l IH]; intros Hincl Ni Nd x c prev x2 HI Hl Hrange H; cbn [pass2S] in H.
+  - cbn [pass2]. destruct (Cursor.advance mb banks c prev); try discriminate. inversion H; subst. split; [reflexivity|]. split; [exact HI|]. split; [exact Hl|apply aux_refl].
+  - assert (Hin : In (n, cn) ns) by (apply Hincl; now left).
+    assert (Hincl' : incl l ns) by (intros y Hy; apply Hincl; now right).
+    cbn [flat_map] in Ni, Nd.
+    unfold step2S in H. cbn [fst snd] in H. cbn [pass2]. unfold step2. cbn [fst snd].
+    destruct (Cursor.advance mb banks c prev) as [c1| |]; try discriminate.
+    destruct (Cursor.enter mb banks c1 (shape n)) as [c2| |]; try discriminate.
+    destruct (Cursor.cur_bank banks c2) as [[b pos]| |]; try discriminate.
+    destruct (NS n cn x b pos) as [[x1 r1]| |] eqn:E; try discriminate.
+    destruct r1; cbn [merge] in H; [|exfalso; eapply pass2S_sticky; eauto].
+    assert (Hr0 : forall d, In d (dref (n, cn)) -> (d < length (s_data (ss x)))%nat)
+      by (intros d Hd; apply Hrange; cbn [flat_map]; apply in_or_app; now left).
+    pose proof (node_aux2 n cn x b pos x1 Hin HI Hl Hr0 E) as Ha0.
+    destruct (node_T_to_F2 n cn x b pos x1 Resolved Hin HI E) as (rF & HF & _ & HI1 & _).
+    assert (Hl1 : labels_ok2 ns (ss x1)) by (eapply resolve_node2_labels_ok; [exact Hdist|exact Hl|exact Hin|exact HF]).
+    destruct (node2_frame _ _ _ _ _ _ _ _ _ _ _ HF) as (_ & _ & Hlen).
+    destruct (IH Hincl' (NoDup_app_r _ _ Ni) (NoDup_app_r _ _ Nd) x1 c2 (Some (view (ss x1) n)) x2 HI1 Hl1) as (IHp & HI2 & Hl2 & Ha1); [|exact H|].
+    { intros d Hd. rewrite Hlen. apply Hrange. cbn [flat_map]. apply in_or_app. now right. }
+    destruct (pass_T_to_F2 l x1 c2 (Some (view (ss x1) n)) Resolved Resolved x2 Resolved Hincl' HI1 (le_res_refl _) H) as (rF' & HF' & _ & _ & Hsub).
+    destruct (pass2_frame _ _ _ _ _ _ _ _ _ _ _ _ HF') as (Fi & Fd & _).
+    destruct (pass2S_flags _ _ _ _ _ _ _ _ _ _ _ _ _ _ _ H) as (_ & _ & Ff).
+    assert (Ho : own_eq2 n (ss x1) (ss x2)).
+    { destruct n; cbn [own_eq2]; try exact I.
+      - symmetry. apply Fi. intro Hi. eapply NoDup_app_disj; [exact Ni| |exact Hi]. cbn. now left.
+      - symmetry. apply Fd. intro Hd. eapply NoDup_app_disj; [exact Nd| |exact Hd]. cbn. now left. }
+    rewrite (replay_node2 n cn x b pos x1 x2 Hin HI Hl Hr0 E HI2 Hl2 Ha1 Hsub Ho). cbn [merge].
+    rewrite (view_eq n (ss x2) (ss x1) (aux_sym _ _ Ha1)).
+    2:{ destruct n; cbn [own_eq2] in *; try exact I; symmetry; exact Ho. }
+    split; [exact IHp|]. split; [exact HI2|]. split; [exact Hl2|eapply aux_trans; eauto].
+Qed.
+
 End Replay2.
